@@ -9,6 +9,7 @@ import (
 
 func init() {
 	vpHarnesses["vpC19_RandomPrime"] = vpC19_RandomPrime
+	vpHarnesses["vpC19_FourSquares"] = vpC19_FourSquares
 	vpHarnesses["vpC19_FastMod"] = vpC19_FastMod
 	vpHarnesses["vpC19_ModInverse"] = vpC19_ModInverse
 	vpHarnesses["vpC19_Crt"] = vpC19_Crt
@@ -194,4 +195,22 @@ func vpC19_RandomPrime() {
 	vpAssert("random prime passed the primality test and is odd", vpIsPrime(p) && p.Bit(0) == 1)
 	_, err = RandomPrimeInRange(&vpSymReader{}, uint(vpChoose("tinyStart", 2)), c[1])
 	vpAssert("a start below 2 bits is refused", err != nil)
+}
+
+// C19 SumFourSquares, the reduction steps around the randomised core: for every
+// n in [0, 2^bits) the four returned values are non-negative and their squares
+// sum to n, given that the core sumFourSquaresSpecial meets its contract on
+// arguments that are 2 modulo 4 - and it is only ever called with such arguments.
+func vpC19_FourSquares() {
+	bits := vpParam("bits", 10)
+	n := vpBigRange("n", big.NewInt(0), new(big.Int).Sub(new(big.Int).Lsh(big.NewInt(1), uint(bits)), big.NewInt(1)))
+	orig := new(big.Int).Set(n)
+	x, y, z, w := SumFourSquares(n)
+	vpAssert("SumFourSquares leaves its argument alone", n.Cmp(orig) == 0)
+	vpAssert("four squares are non-negative", x.Sign() >= 0 && y.Sign() >= 0 && z.Sign() >= 0 && w.Sign() >= 0)
+	sum := new(big.Int).Mul(x, x)
+	sum.Add(sum, new(big.Int).Mul(y, y))
+	sum.Add(sum, new(big.Int).Mul(z, z))
+	sum.Add(sum, new(big.Int).Mul(w, w))
+	vpAssert("the four squares sum to n", sum.Cmp(orig) == 0)
 }
